@@ -93,9 +93,13 @@ fn exec_solver(mut reader: DimacsInstanceRead, program: &str, options: &[String]
         }
         stdin.flush()
     });
-    let stdout = child.stdout.take().expect("Failed to open stdout");
+    let mut stdout = child.stdout.take().expect("Failed to open stdout");
+    let mut output = Vec::new();
+    stdout
+        .read_to_end(&mut output)
+        .expect("Failed to read from stdout");
     child.wait().expect("failed to wait on child");
-    Box::new(stdout)
+    Box::new(std::io::Cursor::new(output))
 }
 
 #[cfg(test)]
